@@ -1,3 +1,5 @@
 -- Root of the `RdVerif` library: executable models, generated data, proofs, property theorems.
 import RdVerif.Model.Driver
 import RdVerif.Props.C09
+import RdVerif.Props.C10
+import RdVerif.Props.C10Entry
